@@ -628,7 +628,7 @@ func main() {
 	r.MaybeReplay()
 	r.Assume("identity of triples is judged structurally through exported accessors (type, id, kind, instant, literal type+value), never through UUID() or String()")
 	r.Assume("successor states are produced by replaying the BFS-shortest operation path on a fresh memory store; merged model states are licensed by checking every transition out of every state")
-	level1(r, r.Pick(12, 16))
+	level1(r, r.Pick(12, 15))
 	level2(r, r.Pick(12, 30))
 	r.Set("rule", "BFS over StoreModel states; level 1: all subsets of the triple universe x all add/remove batches of size 0-2; level 2: store with 2 names, handle slots incl. stale handles, to fixpoint")
 	r.Finish()
